@@ -273,21 +273,25 @@ func Prune(v interface{}) (interface{}, bool) {
 		}
 		return out, len(out) == 0
 	case []interface{}:
+		// like the scrubber: null entries do not keep a list alive, but a list needs at
+		// least one (empty) object to count as "objects left empty"
 		out := make([]interface{}, len(v))
-		all := len(v) > 0
+		all, some := true, false
 		for i, x := range v {
 			px, empty := Prune(x)
 			switch x.(type) {
 			case map[string]interface{}, []interface{}:
+				some = true
 				if !empty {
 					all = false
 				}
+			case nil:
 			default:
 				all = false
 			}
 			out[i] = px
 		}
-		return out, all
+		return out, all && some
 	default:
 		return v, false
 	}
